@@ -489,6 +489,18 @@ pub fn child(seed: u64) -> i32 {
         println!("CHILD-FAIL late-emission-not-delivered");
         return 1;
     }
+    // the main thread emitted before any recorder existed; its later emissions must reach the winner too
+    {
+        let me = std::thread::current().id();
+        let before = log.lock().unwrap().iter().filter(|e| e.thread == me).count();
+        metrics::counter!("after_on_the_thread_that_emitted_before_install").increment(1);
+        let l = log.lock().unwrap();
+        let mine: Vec<_> = l.iter().filter(|e| e.thread == me).collect();
+        if !(mine.len() > before && mine[before].rec == w) {
+            println!("CHILD-FAIL emission-after-install-not-delivered a thread that had emitted before the installation does not reach the installed recorder afterwards");
+            return 1;
+        }
+    }
     println!("CHILD-OK installers={} emitters={} winner={}", k, emitters, w);
     0
 }
